@@ -293,6 +293,7 @@ Inductive op :=
 | Del (path : string)
 | AddColl (path : string)                     (* add_collection: an empty collection holds no rows; the table is unchanged *)
 | Filter (conds : list (string * payload))    (* query, state unchanged *)
+| FilterIdx (idx : list bool) (conds : list (string * payload))   (* filter(idx=mask, ...): query that starts from the caller's mask *)
 | Unique (path : string).                     (* query, state unchanged *)
 
 Record quirks := mkQ {
@@ -315,7 +316,9 @@ Definition resolve (d : dset) (acc : option (list (nat * obj) * nat * list (stri
       | TField p => match slookup p (fields d) with Some o => Some (news, nx, refs ++ [(fst ar, o)]) | None => None end
       | TNew k vals =>
           if Nat.eqb (length vals) (num_obs d) && forallb (payload_ok k false 0) vals
-          then Some (news ++ [(nx, mkObj k false 0 None (mk_rows (rowids d) vals) [])], S nx, refs ++ [(fst ar, nx)])
+          then Some (news ++ [(nx, mkObj k false 0
+                                          (if kind_eqb k KTime || kind_eqb k KTimeDelta then Some ["utc"] else None)
+                                          (mk_rows (rowids d) vals) [])], S nx, refs ++ [(fst ar, nx)])
           else None
       | TSame p a => match field_obj d p with
                      | Some ob => match slookup a (orefs ob) with
@@ -644,12 +647,15 @@ Definition value_eqb (a b : payload) : bool :=
   | PNum [x], PNum [y] => dy_numeqb x y
   | _, _ => payload_eqb a b
   end.
-Definition filter_mask (d : dset) (conds : list (string * payload)) : option (list bool) :=
+Definition filter_mask_from (d : dset) (start : list bool) (conds : list (string * payload)) : option (list bool) :=
+  if negb (Nat.eqb (length start) (num_obs d)) then None else
   fold_left (fun acc c =>
     match acc, field_obj d (fst c) with
     | Some m, Some ob => if otwo ob then None else Some (map2 andb m (map (fun r => value_eqb (cval r) (snd c)) (orows ob)))
     | _, _ => None
-    end) conds (Some (repeat true (num_obs d))).
+    end) conds (Some start).
+Definition filter_mask (d : dset) (conds : list (string * payload)) : option (list bool) :=
+  filter_mask_from d (repeat true (num_obs d)) conds.
 (* numpy.unique: NaNs collapse into one *)
 Definition unique_eqb (a b : payload) : bool :=
   match a, b with
@@ -688,7 +694,7 @@ Definition step0 (q : quirks) (d : dset) (o : op) : option dset :=
       if existsb (String.eqb p) (colls d) || match slookup p (fields d) with Some _ => true | None => false end
       then None                                               (* FieldExistsError *)
       else Some (mkD (num_obs d) (rowids d) (store d) (fields d) (next d) (add_colls (colls d) (prefixes p ++ [p])))
-  | Filter _ | Unique _ => Some d
+  | Filter _ | FilterIdx _ _ | Unique _ => Some d
   end.
 
 (* well-formed reference structure: identities are unique, every reference (and every field) names an object of
@@ -744,6 +750,7 @@ Inductive obs :=
 | ORaise
 | OSkip                                                                            (* step not observed *)
 | OMask (m : list bool)
+| OMask2 (m : list bool) (arg_after : list bool)   (* filter(idx=mask): the result, and the caller's mask after the call *)
 | OVals (v : list payload).
 
 Definition unit_eqb (a b : option (list string)) : bool := opt_eqb (list_eqb String.eqb) a b.
@@ -932,6 +939,17 @@ Definition coll_len_class (d o : dset) : bool :=
   negb (Nat.eqb (num_obs d) 0)
   && existsb (fun c => negb (Nat.eqb (coll_len d c) (num_obs d))
                        && existsb (fun pf => is_under c (fst pf)) (fields o)) (colls d).
+(* a time / time_delta object in another scale than utc (the scale is carried as the unit tag) gets fill rows: the
+   empty value is built in utc and converted - datetime.min cannot be converted (c09_time_fill_not_utc) *)
+Definition time_fill_class (d o : dset) : bool :=
+  let pr := all_pairs d o in
+  let not_utc := fun (x : nat * obj) =>
+      (kind_eqb (okind (snd x)) KTime || kind_eqb (okind (snd x)) KTimeDelta)
+      && match ounit (snd x) with Some [u] => negb (String.eqb u "utc") | _ => false end in
+  (negb (Nat.eqb (num_obs o) 0)
+   && existsb (fun x => not_utc x && negb (existsb (fun ab => Nat.eqb (fst ab) (fst x)) pr)) (store d))
+  || (negb (Nat.eqb (num_obs d) 0)
+      && existsb (fun x => not_utc x && negb (existsb (fun ab => Nat.eqb (snd ab) (fst x)) pr)) (store o)).
 Fixpoint class_any (cls : dset -> dset -> bool) (d : dset) (os : list dset) : bool :=
   match os with
   | [] => false
@@ -965,7 +983,8 @@ Definition classify_extend (d : dset) (os : list dset) (s : option string) (b : 
       end
     else 1%Z in
   let other_classes :=
-    if Z.eqb refs_class 4 then 4%Z
+    if class_any time_fill_class d os && match b with ORaise => true | _ => false end then 10%Z
+    else if Z.eqb refs_class 4 then 4%Z
     else if class_any coll_len_class d os then 8%Z
     else if class_any nested_pad_class d os then 6%Z
     else if class_any nested_drop_class d os then 7%Z
@@ -1042,6 +1061,13 @@ Fixpoint check_from (d : dset) (k : Z) (l : list (op * obs)) : Z :=
       | Some d', OMask m =>
           match o with
           | Filter cs => if opt_eqb (list_eqb Bool.eqb) (filter_mask d cs) (Some m) then check_from d' (k + 1)%Z r else bad
+          | _ => bad
+          end
+      | Some d', OMask2 m after =>
+          match o with
+          | FilterIdx idx cs =>
+              if opt_eqb (list_eqb Bool.eqb) (filter_mask_from d idx cs) (Some m) && list_eqb Bool.eqb idx after
+              then check_from d' (k + 1)%Z r else bad
           | _ => bad
           end
       | Some d', OVals v =>
